@@ -39,6 +39,8 @@ type dbGen struct {
 	lastSuf  base.State
 	manyKeys int // when > 0, some blocks carry this many states (to cross batch limits)
 	valn     int
+
+	alignRecords int // when > 0, the block is padded to a multiple of this many records (or one off it)
 }
 
 func newDBGen(r *simkit.Run, nkeys int) *dbGen {
@@ -121,6 +123,28 @@ func (g *dbGen) blockN(h base.Height, n int) *dbBlock {
 
 	for j := r.Choose(4); j > 0; j-- {
 		b.knownOps = append(b.knownOps, valuehash.RandomSHA256())
+	}
+
+	// a block whose number of records (states + their operations + known operations) lands on or next to a multiple
+	// of the block-write batch size (128)
+	if g.alignRecords > 0 {
+		count := len(b.states) + len(b.knownOps)
+		for _, st := range b.states {
+			count += len(st.Operations())
+		}
+
+		target := (count+g.alignRecords-1)/g.alignRecords*g.alignRecords + []int{0, 0, 0, 1, -1}[r.Choose(5)]
+		if r.Chance(1, 3) {
+			target += g.alignRecords
+		}
+
+		for i := 0; count < target; i++ {
+			g.valn++
+			b.states = append(b.states, base.NewBaseState(h, fmt.Sprintf("pad%04d", i), base.NewDummyStateValue(fmt.Sprintf("v%d@%d", g.valn, h)), valuehash.RandomSHA256(), nil))
+			count++
+		}
+
+		r.Probe("block_aligned_to_write_batch")
 	}
 
 	manifest := base.NewDummyManifest(h, valuehash.RandomSHA256())
